@@ -179,6 +179,7 @@ def decode(sx, case):
     # checked against the implementation through `spec`)
     floats = bridges.pop("floats-ok", "true") == "true" and bridges.pop("floats-stable", "true") == "true"
     dom = bridges.pop("in-domain", "true")
+    bridges.setdefault("tokens-ok", "true")
     bridges["domain-if-floats"] = dom if floats else "true"
     model["bridges"] = bridges
     model["float_domain"] = floats
@@ -189,7 +190,7 @@ def decode(sx, case):
 def for_model(case, res):
     out = dict(res)
     if res.get("compile", ["err"])[0] == "ok" and "eval2" in res:
-        out["bridges"] = {"lex-bridge": "true", "parse-bridge": "true", "norm-is-reparse": "true", "domain-if-floats": "true"}
+        out["bridges"] = {"lex-bridge": "true", "parse-bridge": "true", "norm-is-reparse": "true", "domain-if-floats": "true", "tokens-ok": "true"}
         out["float_domain"] = True
     return out
 
